@@ -55,6 +55,20 @@ def cases(tier, rng):
                     rows.append(([list(ri)], list(ra))); pressed.append([True])
             rows = [([['SNone'] * len(ki)], ['SNone'] * len(ka))] + rows
             yield (build([list(ki)], list(ka), rows, pressed), 'both-levels')
+    # "Fired iff the value is non-zero" for values far below any tolerance: a key scaled down to 2^-100 (its square underflows
+    # in f32) or 2^-30, at input or action level, without conditions and with passing blockers only; all output types
+    for tiny in ('1/%d' % 2 ** 100, '-1/%d' % 2 ** 100, '1/%d' % 2 ** 30):
+        for dim in range(4):
+            for level in ('input', 'action'):
+                for blockers in (False, True):
+                    ids = Ids()
+                    sc_ = '(m_scale %s %s %s)' % (tiny, tiny, tiny)
+                    am = idlist(ids, ([sc_] if level == 'action' else []) + [PROBE])
+                    ac = idlist(ids, [c_script('(KBlocker false)', ['SFired'] * 6), c_script('(KBlocker true)', ['SFired'] * 6)] if blockers else [])
+                    bd = bind(ids, key(0), ([sc_] if level == 'input' else []) + [PROBE], [])
+                    act = '(mkAction %d %s %s %s)' % (aid(dim, 1, False, False), am, ac, lst([bd]))
+                    steps = [sop(spawn(0, [0])), frame(raw()), frame(raw(keys=[0])), frame(raw(keys=[0])), frame(raw()), frame(raw(keys=[0]))]
+                    yield (scenario([0], [0], {(0, 0): spec([act])}, steps), 'tiny-values')
     # random: 1-3 inputs, up to 8 conditions per level
     for _ in range(1500 if tier == 'thorough' else 150):
         ninp = rng.randint(1, 3)
@@ -75,7 +89,7 @@ STAGES = [dict(name='law', mode='app', coq='Check.C03c', cases=cases, nontrivial
                rule='one bool action bound to keys in a real context; every condition is scripted (kind in {explicit, implicit, blocker, events-only blocker} '
                     'x result in {None, Ongoing, Fired} per frame). Exhaustive: every kind sequence of length <= 2 (quick) / <= 3 (thorough) at input level and at '
                     'action level, each run through all result rows with the key up and down (one row per frame of one App); all pairs of an input-level and an '
-                    'action-level sequence of length <= 1 (quick) / <= 2 (thorough); random 1-3 inputs with up to 5+6 conditions. '
+                    'action-level sequence of length <= 1 (quick) / <= 2 (thorough); random 1-3 inputs with up to 5+6 conditions; a key scaled to +-2^-100 / 2^-30 at input or action level on every output type, without conditions and with passing blockers only. '
                     'non-trivial = some scripted condition present and some Fired state observed; distinct = distinct scenario text')]
 
 CLAUSES = {1: 'polled state differs from the law applied to the logged (kind, result) pairs of the contributing inputs and the action-level conditions',
@@ -83,4 +97,4 @@ CLAUSES = {1: 'polled state differs from the law applied to the logged (kind, re
 def describe(stage, clause): return CLAUSES.get(clause, 'clause %d' % clause)
 def matches_known(k, case, verdict): return False
 TRUSTED = TRUSTED_BASE + ['Bevy 0.15 observer dispatch and command flushing (modelled operationally, validated by the traces)']
-ASSUMES = ['inputs are keys (values true/false), so the cancellation corner of C04 cannot occur', 'scripted conditions wrap nothing: the law is judged from the logged (kind, result) pairs']
+ASSUMES = ['inputs are keys (values true/false, or scaled to a tiny magnitude), so the cancellation corner of C04 cannot occur', 'scripted conditions wrap nothing: the law is judged from the logged (kind, result) pairs']
